@@ -167,8 +167,35 @@ class Gen:
         return b
 
     # ------------------------------------------------------------- statements
+    def stmt_aggcmp(self):
+        """b := a (a copy of an aggregate), possibly one leaf of b changed, then a == b and a != b"""
+        r = self.r
+        t = r.choice([("arr", r.choice([2, 3]), REC_P), ("arr", 3, I32), ("arr", 2, REC_Q), REC_P, REC_Q, ("arr", 3, U8)])
+        a, b = self.fresh(), self.fresh()
+        ss = [{"s": "let", "n": a, "x": self.expr(t), "ty": t, "mut": False}]
+        self.declare(a, t, False)
+        ss.append({"s": "let", "n": b, "x": {"e": "var", "n": a, "ty": t}, "ty": t, "mut": True})
+        self.declare(b, t, True)
+        if r.random() < 0.7:
+            # change one leaf, preferably not the first element
+            l, lt = {"l": "var", "n": b}, t
+            while lt[0] in ("arr", "rec"):
+                if lt[0] == "arr":
+                    k = r.randrange(1, lt[1]) if r.random() < 0.8 else 0
+                    l = {"l": "idx", "a": l, "i": self.index_lit(k)}
+                    lt = lt[2]
+                else:
+                    fn, ft = r.choice(lt[2])
+                    l = {"l": "fld", "x": l, "f": fn}
+                    lt = ft
+            ss.append({"s": "set", "l": l, "x": self.expr(lt)})
+        for op in ("eq", "ne"):
+            ss.append({"s": "print", "ty": BOOL, "x": {"e": "bin", "op": op, "l": {"e": "var", "n": a, "ty": t}, "r": {"e": "var", "n": b, "ty": t}}})
+        return ss
+
     def stmt_let(self):
-        t = self.r.choice(INTS + [BOOL, ("arr", self.r.choice([2, 3, 4]), self.r.choice([I32, U8, I64])), REC_P, REC_Q])
+        t = self.r.choice(INTS + [BOOL, ("arr", self.r.choice([2, 3, 4]), self.r.choice([I32, U8, I64])), REC_P, REC_Q,
+                                  ("arr", 2, REC_P)])
         x = self.expr(t)
         n = self.fresh()
         mut = self.r.random() < 0.7
@@ -205,6 +232,10 @@ class Gen:
         for _ in range(n):
             if self.budget <= 0:
                 break
+            if not self.noprint and self.r.random() < 0.06:
+                self.budget -= 2
+                ss += self.stmt_aggcmp()
+                continue
             ss.append(self.stmt(allow_jump))
         self.scopes.pop()
         return {"e": "blk", "label": label, "ss": ss, "tail": NONE}
@@ -323,6 +354,10 @@ class Gen:
         ss = []
         self.budget = nstmts
         while self.budget > 0:
+            if not self.noprint and self.r.random() < 0.08:
+                self.budget -= 2
+                ss += self.stmt_aggcmp()
+                continue
             ss.append(self.stmt())
         tail = self.expr(ret) if ret is not None else NONE
         self.scopes.pop()
